@@ -289,6 +289,14 @@ class AssemblyBase:
 class TwoSymm(AssemblyBase):
     """BaseTwoIndexSymmetric.construct_array_{cartesian,spherical,mix,lincomb}"""
 
+    fp = True  # cross-check: the same contract on the unmodified float64 code at sampled inputs (bounded)
+
+    def fp_shapes(self, tier):
+        sh = self.shapes(tier)
+        step = max(1, len(sh) // (6 if tier == "quick" else 24))
+        return sh[::step][:(6 if tier == "quick" else 24)]
+
+
     function = "gbasis.base_two_symm.BaseTwoIndexSymmetric.construct_array_*"
     modname = "gbasis.base_two_symm"
     clsname = "BaseTwoIndexSymmetric"
@@ -377,6 +385,13 @@ class TwoSymmHerm(TwoSymm):
 
 
 class TwoAsymm(AssemblyBase):
+    fp = True  # cross-check: the same contract on the unmodified float64 code at sampled inputs (bounded)
+
+    def fp_shapes(self, tier):
+        sh = self.shapes(tier)
+        step = max(1, len(sh) // (6 if tier == "quick" else 24))
+        return sh[::step][:(6 if tier == "quick" else 24)]
+
     function = "gbasis.base_two_asymm.BaseTwoIndexAsymmetric.construct_array_*"
 
     def shapes(self, tier):
@@ -444,6 +459,13 @@ class TwoAsymm(AssemblyBase):
 
 
 class OneIndex(AssemblyBase):
+    fp = True  # cross-check: the same contract on the unmodified float64 code at sampled inputs (bounded)
+
+    def fp_shapes(self, tier):
+        sh = self.shapes(tier)
+        step = max(1, len(sh) // (6 if tier == "quick" else 24))
+        return sh[::step][:(6 if tier == "quick" else 24)]
+
     function = "gbasis.base_one.BaseOneIndex.construct_array_*"
 
     def shapes(self, tier):
@@ -499,6 +521,13 @@ class OneIndex(AssemblyBase):
 
 
 class FourSymm(AssemblyBase):
+    fp = True  # cross-check: the same contract on the unmodified float64 code at sampled inputs (bounded)
+
+    def fp_shapes(self, tier):
+        sh = self.shapes(tier)
+        step = max(1, len(sh) // (6 if tier == "quick" else 24))
+        return sh[::step][:(6 if tier == "quick" else 24)]
+
     function = "gbasis.base_four_symm.BaseFourIndexSymmetric.construct_array_*"
 
     def shapes(self, tier):
